@@ -9,6 +9,7 @@ reports a VIOLATION. Result is stored as /verif/seeded/<Cxx>-<name>/{patch.diff,
 import sys, os, json, subprocess, shutil, re
 pid, src = sys.argv[1], sys.argv[2].rstrip("/")
 tier = sys.argv[sys.argv.index("--tier") + 1] if "--tier" in sys.argv else "quick"
+chk = sys.argv[sys.argv.index("--check") + 1] if "--check" in sys.argv else pid     # the property whose check is run (default: the seed's own)
 name = os.path.basename(src)
 wt = "/tmp/wt/" + pid
 def sh(cmd, **kw):
@@ -29,10 +30,11 @@ res["tests_failed_with_change"] = int(re.search(r"(\d+) failed", r.stdout).group
 r = sh("cd %s && /venv/bin/python %s" % (wt, demo)); res["demo_fails_with_change"] = r.returncode != 0
 res["demo_output_with_change"] = r.stdout[-400:]
 env = dict(os.environ, MINGUS_REPO=wt, VERIF_WORK="/tmp/audit_work_" + pid, VERIF_EVIDENCE_DIR="/tmp/audit_ev", VERIF_REPLAY_DIR="/tmp/audit_ev")
-r = sh("cd /verif && ./check %s --tier %s" % (pid, tier), env=env)
-res["check_cmd"] = "MINGUS_REPO=<scratch worktree with patch> ./check %s --tier %s" % (pid, tier)
+r = sh("cd /verif && ./check %s --tier %s" % (chk, tier), env=env)
+res["check_cmd"] = "MINGUS_REPO=<scratch worktree with patch> ./check %s --tier %s" % (chk, tier)
+res["checked_with"] = chk
 res["check_exit"] = r.returncode
-res["detected"] = r.returncode == 1 and ("VIOLATION property=%s" % pid) in r.stdout
+res["detected"] = r.returncode == 1 and ("VIOLATION property=%s" % chk) in r.stdout
 m = re.search(r"rejected clauses: (.*)", r.stdout); res["rejected_clauses"] = json.loads(m.group(1)) if m else {}
 sh("git -C %s checkout -q -- ." % wt); shutil.rmtree("/tmp/audit_work_" + pid, ignore_errors=True)
 ok = res["demo_passes_without_change"] and res["demo_fails_with_change"] and res["tests_passed_with_change"] == 190 and res["tests_failed_with_change"] == 0
